@@ -1,5 +1,6 @@
 mod alloc;
 mod auth;
+mod authretry;
 mod boot;
 mod autoalloc;
 mod cluster;
@@ -22,6 +23,7 @@ fn main() {
         "alloc" => alloc::main(&args[2..]),
         "auth" => auth::main(&args[2..]),
         "boot" => boot::main(&args[2..]),
+        "authretry" => authretry::main(&args[2..]),
         "stream" => stream::main(&args[2..]),
         "sched" => sched::main(&args[2..]),
         "autoalloc" => autoalloc::main(&args[2..]),
